@@ -123,4 +123,8 @@ static inline uint64_t rr_size_o(rr_cache o) { return rr_size(&o); }
 static inline uint64_t rr_cap_o(rr_cache o) { return rr_cap(&o); }
 static inline uint64_t rr_key_of_slot_o(rr_cache o, uint64_t idx) { return rr_key_of_slot(&o, idx); }
 static inline uint64_t rr_entry_key_o(rr_cache o, cstl_iter kp) { return rr_entry_key(&o, kp); }
+static inline bool rr_view_eq(const rr_cache *a, const rr_cache *b, uint64_t g)
+{
+    return rr_has(a, g) == rr_has(b, g) && (!rr_has(a, g) || rr_val(a, g) == rr_val(b, g));
+}
 #endif
